@@ -2,7 +2,7 @@
    alpn_select_callback / tls_start_client / tls_start_server; check_case recomputes them with
    the translated function (Gen/AlpnSelect.v) and the hand model (Model/Alpn.v). *)
 From Coq Require Import List Bool NArith.
-From MV Require Import Base.Bytes Model.AlpnPrelude Gen.AlpnSelect Model.Alpn.
+From MV Require Import Base.Bytes Model.AlpnPrelude Gen.AlpnSelect Gen.ClientTlsReset Model.Alpn.
 Import ListNotations.
 
 (* protocol classes of the exhaustive sweep; the printer in harness/props/C18.py uses the same table *)
@@ -44,9 +44,18 @@ Inductive case :=
 | K (offers : list N) (server client : N) (h2 : bool) (res : N)
 | G (offers : list bytes) (server client : option bytes) (h2 : bool) (res : oresult)
 | U (server_offers : option (list bytes)) (client_offers : list bytes) (h2 : bool) (observed : list bytes)
-| H (nlayers : nat) (layer0_http_proxy : bool) (client_attr server_attr : option bytes) (h2 : bool)
+| H (fixed : bool) (layers : list layer_kind) (client_attr server_attr : option bytes) (h2 : bool)
     (offers : list bytes)
-    (obs_client_alpn obs_server_alpn : option bytes) (obs_http2 : bool) (obs_negotiated : option bytes).
+    (obs_client_alpn obs_server_alpn : option bytes) (obs_http2 : bool) (obs_negotiated : option bytes)
+(* real ClientTLSLayer.__init__ on a client with the given TLS state *)
+| Init (tls : bool) (alpn : option bytes) (alpn_offers : list bytes)
+    (obs_tls : bool) (obs_alpn : option bytes) (obs_offers : list bytes)
+(* nested client TLS through the real layers: outer handshake on outer_layers (fresh client), then the inner
+   ClientTLSLayer is constructed and the inner handshake runs on inner_layers with server.alpn = sa *)
+| Nest (fixed : bool) (outer_layers : list layer_kind) (outer_offers : list bytes) (h2 : bool)
+    (inner_layers : list layer_kind) (sa : option bytes) (inner_offers : list bytes)
+    (obs_outer_neg : option bytes) (obs_alpn_after_init : option bytes) (obs_offers_after_init : list bytes)
+    (obs_inner_client_alpn : option bytes) (obs_inner_neg : option bytes).
 
 Definition check_case (c : case) : bool :=
   match c with
@@ -64,8 +73,22 @@ Definition check_case (c : case) : bool :=
   | G offers s cl h res =>
       oresult_eqb (R (alpn_select_callback {| client_alpn := cl; server_alpn := s; http2 := h |} offers)) res
   | U so co h obs => list_eqb bytes_eqb (tls_start_server_offers so co h) obs
-  | H n l0 ca sa h offers oc os oh oneg =>
-      let ad := tls_start_client_app_data n l0 ca sa h in
+  | Init t a o ot oa oo =>
+      let st := client_tls_layer_init {| c_tls := t; c_alpn := a; c_alpn_offers := o |} in
+      Bool.eqb (c_tls st) ot && option_eqb bytes_eqb (c_alpn st) oa && list_eqb bytes_eqb (c_alpn_offers st) oo
+  | Nest fixed lo oo h li sa io o_neg o_alpn o_offers o_ca o_ineg =>
+      let ad_o := tls_start_client_app_data fixed lo None None h in
+      let neg_o := negotiated_with_client ad_o oo in
+      (* ClientTLSLayer records conn.alpn = negotiated protocol (empty when none), alpn_offers = the ClientHello offers *)
+      let st := client_tls_layer_init {| c_tls := true; c_alpn := neg_o; c_alpn_offers := oo |} in
+      let ad_i := tls_start_client_app_data fixed li (c_alpn st) sa h in
+      option_eqb bytes_eqb neg_o o_neg
+      && option_eqb bytes_eqb (c_alpn st) o_alpn
+      && list_eqb bytes_eqb (c_alpn_offers st) o_offers
+      && option_eqb bytes_eqb (client_alpn ad_i) o_ca
+      && option_eqb bytes_eqb (negotiated_with_client ad_i io) o_ineg
+  | H fixed layers ca sa h offers oc os oh oneg =>
+      let ad := tls_start_client_app_data fixed layers ca sa h in
       option_eqb bytes_eqb (client_alpn ad) oc
       && option_eqb bytes_eqb (server_alpn ad) os
       && Bool.eqb (http2 ad) oh
